@@ -176,6 +176,14 @@ func (publisher *Publisher) sendStatisticsFiles(files chan *core.File) {
 }
 
 func (publisher *Publisher) sendFiles(files chan *core.File) {
+	// The places must be known before any page is named because the page name
+	// of an individual depends on them (see getUniqueKey). Otherwise the page
+	// of an individual is written under a different name than the one that
+	// the links to it use.
+	if publisher.options.ShowPlaces {
+		publisher.Places()
+	}
+
 	publisher.sendIndividualFiles(files)
 	publisher.sendPlaceFiles(files)
 	publisher.sendFamilyFiles(files)
